@@ -53,7 +53,7 @@ def execute(ex: Execution, family: str, mode: str) -> tuple[Any, list[Any]]:
                         marks["stop_processed"] = True
 
         h.on_tick.append(on_tick)
-        if mode in ("cancel", "cancel_resume"):
+        if mode in ("cancel", "cancel_resume", "cancel_resume_x2"):
             e.add_script([Action("cancel_run", lambda: hd.ctx._workflow_cancel_run())])
         e.cfg.stop_when = lambda hh: hd.is_done() and hh.stream_done
         e.drive()
@@ -91,15 +91,34 @@ def execute(ex: Execution, family: str, mode: str) -> tuple[Any, list[Any]]:
             except Exception as ex_:  # noqa: BLE001
                 v.append(("context_not_serializable_after_cancel", w, f"ctx.to_dict() raised {ex_!r}"))
                 snap = None
-            if snap is not None and mode == "cancel_resume":
+            if snap is not None and mode in ("cancel_resume", "cancel_resume_x2"):
                 wf2 = cls(timeout=None, runtime=MonRuntime(BasicRuntime()))
                 h.stream_done = False
                 hd2 = wf2.run(ctx=Context.from_dict(wf2, snap), run_id="r2")
                 e.consume_stream(hd2)
+                if mode == "cancel_resume_x2":
+                    # the resumed run may be cancelled again, at any point, and resumed a second time
+                    e.add_script([Action("cancel_run (resumed run)", lambda: hd2.ctx._workflow_cancel_run())])
                 e.cfg.stop_when = lambda hh: hd2.is_done() and hh.stream_done
                 e.stuck = False
                 e.drive()
                 out2 = task_outcome(hd2._result_task)
+                if mode == "cancel_resume_x2" and isinstance(out2[1], WorkflowCancelledByUser):
+                    w = {**w, "second_cancel": True}
+                    try:
+                        snap2 = json.loads(json.dumps(hd2.ctx.to_dict()))
+                    except Exception as ex_:  # noqa: BLE001
+                        v.append(("context_not_serializable_after_cancel", w, f"ctx.to_dict() of the resumed run raised {ex_!r}"))
+                        snap2 = None
+                    if snap2 is not None:
+                        wf3 = cls(timeout=None, runtime=MonRuntime(BasicRuntime()))
+                        h.stream_done = False
+                        hd3 = wf3.run(ctx=Context.from_dict(wf3, snap2), run_id="r3")
+                        e.consume_stream(hd3)
+                        e.cfg.stop_when = lambda hh: hd3.is_done() and hh.stream_done
+                        e.stuck = False
+                        e.drive()
+                        out2 = task_outcome(hd3._result_task)
                 pending_retry = any(getattr(t, "type", "") == "add_event" and t.attempts
                                     for r in h.runners[:1] for _, _, t in r.scheduled_wakeups)
                 if out2[0] != "result" or out2[1].result != expected_result:
@@ -120,7 +139,9 @@ def programs(tier: str) -> list[Program]:
     ps = []
     fams = ["chain2", "fan(2,2)", "retry_delay"] + ([] if q else ["chain3", "fan(3,2)"])
     for fam in fams:
-        for mode in ("timeout", "cancel", "cancel_resume"):
+        for mode in ("timeout", "cancel", "cancel_resume", "cancel_resume_x2"):
+            if mode == "cancel_resume_x2" and fam == "retry_delay":
+                continue  # (the delayed-retry finding is already shown by the single cancel)
             ps.append(Program(f"{mode}/{fam}", {"family": fam, "mode": mode},
                               (lambda ex, fam=fam, mode=mode: execute(ex, fam, mode)),
                               max_dev=(4 if q else 6)))
@@ -131,7 +152,7 @@ RULE = ("timeout (timer firing) or cancel_run arriving at every quiescent point 
         "workflows x all step completion orders; WorkflowTimedOutEvent.active_steps vs steps with live bodies, "
         "no timeout after a processed StopEvent, WorkflowCancelledEvent then WorkflowCancelledByUser, no body "
         "entered after the cancel tick, ctx.to_dict() works and the resumed run completes with the reference "
-        "result; non-trivial = at least one schedule deviation")
+        "result - also when the resumed run is itself cancelled at any point and resumed a second time; non-trivial = at least one schedule deviation")
 
 
 def run(tier: str, seed: int) -> Any:
